@@ -126,6 +126,7 @@ func (mq *MessageQueue) buildMessage(size uint64, buildMessageFn func(*Builder))
 	}
 	builder := mq.builders[len(mq.builders)-1]
 	buildMessageFn(builder)
+	mq.verifAt("built", builder.topic, builder)
 	return !builder.Empty()
 }
 
@@ -153,7 +154,9 @@ func (mq *MessageQueue) Shutdown() {
 }
 
 func (mq *MessageQueue) runQueue() {
+	mq.verifAt("start", 0, nil)
 	defer func() {
+		mq.verifAt("exit", 0, nil)
 		_ = mq.allocator.ReleasePeerMemory(mq.p)
 		mq.eventPublisher.Shutdown()
 		mq.onShutdown(mq.p)
@@ -213,6 +216,7 @@ func (mq *MessageQueue) extractOutgoingMessage() (gsmsg.GraphSyncMessage, intern
 	}
 	builder := mq.builders[0]
 	mq.builders = mq.builders[1:]
+	mq.verifAt("extract", builder.topic, builder)
 	// if there are more queued messages, signal we still have more work
 	if len(mq.builders) > 0 {
 		select {
